@@ -1,3 +1,287 @@
-import OdakProofs.RealInst
+import OdakProofs.Lemmas.DRel
+import OdakModel.Polar
+import OdakModel.Kernels
+import OdakModel.Geometry
+import OdakModel.Rays
+import OdakModel.Losses
+import OdakModel.Generated.Colour
+import Mathlib.Logic.Function.Iterate
+
+/-!
+# C05 – the dual-number evaluation of a model function is its value and its true derivative
+
+`DRel x f D` (OdakProofs/Lemmas/DRel.lean) says `D.v = f x ∧ HasDerivAt f D.d x`.  Every theorem below has
+the shape "the model function run at `Dual ℝ` on the input `p + ε·v` is `DRel 0` to `t ↦ (the model
+function at ℝ) (p + t·v)`", i.e. the executable forward-mode oracle the harness compares torch autograd
+against *is* the directional derivative.  Documented non-smooth points are side conditions.
+-/
 namespace Odak
+
+/-- what the relation delivers: the value part is the function value and the derivative part is `deriv` -/
+theorem C05_oracle_sound {x : ℝ} {f : ℝ → ℝ} {D : Dual ℝ} (h : DRel x f D) :
+    D.v = f x ∧ HasDerivAt f D.d x ∧ deriv f x = D.d ∧ DifferentiableAt ℝ f x :=
+  ⟨h.1, h.2, h.2.deriv, h.2.differentiableAt⟩
+
+/-! ## wave: amplitude / phase ⇄ complex field -/
+
+/-- `generate_complex_field(a, φ)`: no side condition -/
+theorem C05_gen_field_ad (a φ va vφ : ℝ) :
+    DRel 0 (fun t => (genField (a + t * va) (φ + t * vφ)).re) (genField (⟨a, va⟩ : Dual ℝ) ⟨φ, vφ⟩).re ∧
+    DRel 0 (fun t => (genField (a + t * va) (φ + t * vφ)).im) (genField (⟨a, va⟩ : Dual ℝ) ⟨φ, vφ⟩).im := by
+  simp only [genField, Cx.polar]
+  constructor <;> drel
+
+/-- `calculate_amplitude = |u|`, away from the documented non-smooth point `u = 0` -/
+theorem C05_amplitude_ad (re im vre vim : ℝ) (h : re ≠ 0 ∨ im ≠ 0) :
+    DRel 0 (fun t => calcAmplitude (⟨re + t * vre, im + t * vim⟩ : Cx ℝ))
+      (calcAmplitude (⟨⟨re, vre⟩, ⟨im, vim⟩⟩ : Cx (Dual ℝ))) := by
+  simp only [calcAmplitude, Cx.abs, Cx.normSq]
+  drel
+  simp only [zero_mul, add_zero]
+  rcases h with h | h
+  · have := mul_self_pos.mpr h; nlinarith [mul_self_nonneg im]
+  · have := mul_self_pos.mpr h; nlinarith [mul_self_nonneg re]
+
+/-- `calculate_phase = atan2(im, re)`, away from the branch cut (non-positive real axis) -/
+theorem C05_phase_ad (re im vre vim : ℝ) (h : 0 < re ∨ im ≠ 0) :
+    DRel 0 (fun t => calcPhase (⟨re + t * vre, im + t * vim⟩ : Cx ℝ))
+      (calcPhase (⟨⟨re, vre⟩, ⟨im, vim⟩⟩ : Cx (Dual ℝ))) := by
+  simp only [calcPhase, Cx.arg]
+  drel
+  simpa using h
+
+/-! ## propagation kernels as functions of the distance `z` -/
+
+/-- angular-spectrum phase: differentiable in `z` everywhere (the square root does not involve `z`) … -/
+theorem C05_as_phase_ad (n m : Nat) (dx lam z : ℝ) (i : Fin n) (j : Fin m) :
+    DRel z (fun z' => asPhase n m dx lam z' i j)
+      (asPhase n m (Dual.const dx) (Dual.const lam) (Dual.var z) i j) := by
+  simp only [asPhase, asRadicand, freq, linspace]
+  dual_const
+  exact DRel.mul DRel.var' (DRel.const' _)
+
+/-- … and the derivative part is the phase per unit distance -/
+theorem C05_as_phase_slope (n m : Nat) (dx lam z : ℝ) (i : Fin n) (j : Fin m) :
+    (asPhase n m (Dual.const dx) (Dual.const lam) (Dual.var z) i j).d = asPhase n m dx lam 1 i j := by
+  simp only [asPhase, asRadicand, freq, linspace]
+  dual_const
+  simp only [Dual.mul_d, Dual.var_d, Dual.var_v, Dual.const_d, Dual.const_v, mul_zero, add_zero]
+
+/-- Fresnel transfer-function phase `-z (k - π λ (FX² + FY²))` as a function of `z` -/
+theorem C05_tf_phase_ad (n m : Nat) (dx lam k z : ℝ) (i : Fin n) (j : Fin m) :
+    DRel z (fun z' => tfPhase n m dx lam k z' i j)
+      (tfPhase n m (Dual.const dx) (Dual.const lam) (Dual.const k) (Dual.var z) i j) := by
+  simp only [tfPhase, freq, linspace]
+  dual_const
+  exact DRel.neg (DRel.mul DRel.var' (DRel.const' _))
+
+theorem C05_tf_phase_slope (n m : Nat) (dx lam k z : ℝ) (i : Fin n) (j : Fin m) :
+    (tfPhase n m (Dual.const dx) (Dual.const lam) (Dual.const k) (Dual.var z) i j).d
+      = tfPhase n m dx lam k 1 i j := by
+  simp only [tfPhase, freq, linspace]
+  dual_const
+  simp only [Dual.neg_d, Dual.mul_d, Dual.var_d, Dual.var_v, Dual.const_d, Dual.const_v, mul_zero, add_zero]
+
+/-! ## ray tracing -/
+
+/-- `reflect`: `d - 2 (d·n)/(n·n + ε) n` as a function of the incoming direction `d` -/
+theorem C05_reflect_ad (eps : ℝ) (d vd n : Vec3 ℝ) (h : Vec3.dot n n + eps ≠ 0) :
+    DRel 0 (fun t => (reflectDir eps (d + Vec3.smul t vd) n).x)
+      (reflectDir (Dual.const eps) (Dual.vec3 d vd) (Dual.constVec3 n)).x ∧
+    DRel 0 (fun t => (reflectDir eps (d + Vec3.smul t vd) n).y)
+      (reflectDir (Dual.const eps) (Dual.vec3 d vd) (Dual.constVec3 n)).y ∧
+    DRel 0 (fun t => (reflectDir eps (d + Vec3.smul t vd) n).z)
+      (reflectDir (Dual.const eps) (Dual.vec3 d vd) (Dual.constVec3 n)).z := by
+  simp only [reflectDir, Vec3.smul, Vec3.dot, DAux.vsub, DAux.vadd, Dual.vec3, Dual.constVec3]
+  refine ⟨?_, ?_, ?_⟩ <;> drel
+
+/-- `create_ray_from_two_points`: direction cosines as a function of the end point, `p0 ≠ p1` -/
+theorem C05_ray_direction_ad (p0 p1 v : Vec3 ℝ) (h : p0 ≠ p1) :
+    DRel 0 (fun t => (rayDirTwoPoints p0 (p1 + Vec3.smul t v)).x)
+      (rayDirTwoPoints (Dual.constVec3 p0) (Dual.vec3 p1 v)).x ∧
+    DRel 0 (fun t => (rayDirTwoPoints p0 (p1 + Vec3.smul t v)).y)
+      (rayDirTwoPoints (Dual.constVec3 p0) (Dual.vec3 p1 v)).y ∧
+    DRel 0 (fun t => (rayDirTwoPoints p0 (p1 + Vec3.smul t v)).z)
+      (rayDirTwoPoints (Dual.constVec3 p0) (Dual.vec3 p1 v)).z := by
+  have hpos : 0 < (p1.x - p0.x) * (p1.x - p0.x) + (p1.y - p0.y) * (p1.y - p0.y)
+      + (p1.z - p0.z) * (p1.z - p0.z) := by
+    by_contra hc
+    have h1 := mul_self_nonneg (p1.x - p0.x)
+    have h2 := mul_self_nonneg (p1.y - p0.y)
+    have h3 := mul_self_nonneg (p1.z - p0.z)
+    have e1 : p1.x - p0.x = 0 := mul_self_eq_zero.mp (by linarith)
+    have e2 : p1.y - p0.y = 0 := mul_self_eq_zero.mp (by linarith)
+    have e3 : p1.z - p0.z = 0 := mul_self_eq_zero.mp (by linarith)
+    apply h
+    cases p0; cases p1
+    simp only [Vec3.mk.injEq]
+    exact ⟨by linarith, by linarith, by linarith⟩
+  simp only [rayDirTwoPoints, Vec3.sdiv, Vec3.norm, Vec3.normSq, Vec3.smul, Vec3.dot, DAux.vsub,
+    DAux.vadd, Dual.vec3, Dual.constVec3]
+  refine ⟨?_, ?_, ?_⟩ <;> drel <;>
+    first
+    | (simp only [zero_mul, add_zero]; exact hpos)
+    | (simp only [zero_mul, add_zero, num_sqrt]; exact (Real.sqrt_pos.mpr hpos).ne')
+
+/-- `intersect_w_surface`: the hit point as a function of the ray origin, for a ray that is not parallel
+    to the triangle (`n·d ≠ 0`; this also excludes a degenerate triangle, whose model normal is `0`) -/
+theorem C05_intersect_ad (o vo d p0 p1 p2 : Vec3 ℝ)
+    (h : Vec3.dot (triangleNormalDir p0 p1 p2) d ≠ 0) :
+    DRel 0 (fun t => (intersectSurface (o + Vec3.smul t vo) d p0 p1 p2).point.x)
+      (intersectSurface (Dual.vec3 o vo) (Dual.constVec3 d) (Dual.constVec3 p0) (Dual.constVec3 p1)
+        (Dual.constVec3 p2)).point.x ∧
+    DRel 0 (fun t => (intersectSurface (o + Vec3.smul t vo) d p0 p1 p2).point.y)
+      (intersectSurface (Dual.vec3 o vo) (Dual.constVec3 d) (Dual.constVec3 p0) (Dual.constVec3 p1)
+        (Dual.constVec3 p2)).point.y ∧
+    DRel 0 (fun t => (intersectSurface (o + Vec3.smul t vo) d p0 p1 p2).point.z)
+      (intersectSurface (Dual.vec3 o vo) (Dual.constVec3 d) (Dual.constVec3 p0) (Dual.constVec3 p1)
+        (Dual.constVec3 p2)).point.z := by
+  have hn : triangleNormalDir (Dual.constVec3 p0) (Dual.constVec3 p1) (Dual.constVec3 p2)
+      = Dual.constVec3 (triangleNormalDir p0 p1 p2) := by
+    simp only [triangleNormalDir, triangleCross, Vec3.cross, Vec3.sdiv, Vec3.norm, Vec3.normSq, Vec3.dot,
+      DAux.vsub, Dual.constVec3]
+    dual_const
+  have hc : centerOfTriangle (Dual.constVec3 p0) (Dual.constVec3 p1) (Dual.constVec3 p2)
+      = Dual.constVec3 (centerOfTriangle p0 p1 p2) := by
+    simp only [centerOfTriangle, Vec3.sdiv, DAux.vadd, Dual.constVec3]
+    dual_const
+  simp only [intersectSurface, hn, hc]
+  generalize triangleNormalDir p0 p1 p2 = n at h ⊢
+  generalize centerOfTriangle p0 p1 p2 = c
+  simp only [rayParam, Vec3.smul, Vec3.dot, DAux.vsub, DAux.vadd, Dual.vec3, Dual.constVec3]
+  refine ⟨?_, ?_, ?_⟩ <;> drel
+
+/-! ## losses -/
+
+/-- `MSELoss(a, b)` as a function of the image `a` (any length, any direction `va`) -/
+theorem C05_mse_ad (a va b : List ℝ) :
+    DRel 0 (fun t => mse (List.zipWith (fun x v => x + t * v) a va) b)
+      (mse (List.zipWith Dual.mk a va) (b.map Dual.const)) := by
+  simp only [mse, sumL, List.length_zipWith, Dual.ofNat_eq_const]
+  apply DRel.div_const
+  refine DRel.foldl_zipWith _ _ ?_ a va b DRel.zero
+  intro a v b
+  drel
+
+/-- the two-sample instance spelled out -/
+theorem C05_mse_ad_two (a1 a2 v1 v2 b1 b2 : ℝ) :
+    DRel 0 (fun t => mse [a1 + t * v1, a2 + t * v2] [b1, b2])
+      (mse [(⟨a1, v1⟩ : Dual ℝ), ⟨a2, v2⟩] [Dual.const b1, Dual.const b2]) :=
+  C05_mse_ad [a1, a2] [v1, v2] [b1, b2]
+
+/-- `wrapped_mean_squared_error` as a function of the (phase) image -/
+theorem C05_wrapped_mse_ad (a va b : List ℝ) :
+    DRel 0 (fun t => wrappedMse (List.zipWith (fun x v => x + t * v) a va) b)
+      (wrappedMse (List.zipWith Dual.mk a va) (b.map Dual.const)) := by
+  simp only [wrappedMse, sumL, List.length_zipWith, Dual.ofNat_eq_const]
+  apply DRel.div_const
+  refine DRel.foldl_zipWith _ _ ?_ a va b DRel.zero
+  intro a v b
+  drel
+
+/-! ## colour -/
+
+/-- `rgb_2_ycrcb` is affine: all three channels, any colour, any direction -/
+theorem C05_ycrcb_ad (c vc : Vec3 ℝ) :
+    DRel 0 (fun t => (Gen.rgb2ycrcb (c + Vec3.smul t vc)).x) (Gen.rgb2ycrcb (Dual.vec3 c vc)).x ∧
+    DRel 0 (fun t => (Gen.rgb2ycrcb (c + Vec3.smul t vc)).y) (Gen.rgb2ycrcb (Dual.vec3 c vc)).y ∧
+    DRel 0 (fun t => (Gen.rgb2ycrcb (c + Vec3.smul t vc)).z) (Gen.rgb2ycrcb (Dual.vec3 c vc)).z := by
+  simp only [Gen.rgb2ycrcb, Vec3.smul, DAux.vadd, Dual.vec3]
+  refine ⟨?_, ?_, ?_⟩ <;> drel
+
+/-- `srgb_to_lab`'s gamma expansion, away from the threshold `0.04045` where the two pieces meet -/
+theorem C05_srgb_to_linear_ad (x v : ℝ) (h : x ≠ 0.04045) :
+    DRel 0 (fun t => Gen.srgbToLinear (x + t * v)) (Gen.srgbToLinear (⟨x, v⟩ : Dual ℝ)) := by
+  have hthr : (Num.ofSci 4045 true 5 : ℝ) = 0.04045 := by rw [num_ofSci]; norm_num
+  have h55 : (Num.ofSci 55 true 3 : ℝ) = 0.055 := by rw [num_ofSci]; norm_num
+  have h1055 : (Num.ofSci 1055 true 3 : ℝ) ≠ 0 := by rw [num_ofSci]; norm_num
+  have h1292 : (Num.ofSci 1292 true 2 : ℝ) ≠ 0 := by rw [num_ofSci]; norm_num
+  simp only [Gen.srgbToLinear]
+  rcases lt_or_gt_of_ne h with hlt | hgt
+  · refine DRel.ite_lt_neg (DRel.ofSci _ _ _) (DRel.line _ _) ?_ ?_
+    · drel
+    · simp only [zero_mul, add_zero, hthr]; exact hlt
+  · refine DRel.ite_lt_pos (DRel.ofSci _ _ _) (DRel.line _ _) ?_ ?_
+    · drel
+      simp only [zero_mul, add_zero, h55]
+      refine div_ne_zero ?_ h1055
+      intro hc; linarith
+    · simp only [zero_mul, add_zero, hthr]; exact hgt
+
+/-! ## the Newton iteration of `refract` -/
+
+/-- one Newton step, in chain-rule form: any differentiable input `f` with `f x + a ≠ 0` -/
+theorem C05_newton_step_ad (a b : ℝ) {x : ℝ} {f : ℝ → ℝ} {F : Dual ℝ} (hf : DRel x f F)
+    (h : f x + a ≠ 0) :
+    DRel x (fun s => refrStep a b (f s)) (refrStep (Dual.const a) (Dual.const b) F) := by
+  simp only [refrStep]
+  drel
+  simp only [num_two]
+  exact mul_ne_zero two_ne_zero h
+
+/-- any number of Newton steps, as long as no iterate hits the pole `t + a = 0` -/
+theorem C05_newton_iterates_ad (a b t : ℝ) (k : Nat)
+    (h : ∀ j < k, (refrStep a b)^[j] t + a ≠ 0) :
+    DRel t (fun s => (refrStep a b)^[k] s)
+      ((refrStep (Dual.const a) (Dual.const b))^[k] (Dual.var t)) := by
+  induction k with
+  | zero => exact DRel.var'
+  | succ k ih =>
+    simp only [Function.iterate_succ_apply']
+    exact C05_newton_step_ad a b (ih fun j hj => h j (Nat.lt_succ_of_lt hj)) (h k (Nat.lt_succ_self k))
+
+/-! ## non-vacuity -/
+
+/-- a concrete oracle value: `d/dx sin x` at `0` is `1` -/
+example : (Num.sin (Dual.var (0 : ℝ))).d = 1 := by
+  simp [Dual.sin_d, Dual.var_d, Dual.var_v]
+
+/-- `d/dz` of `|z|` at `3 + 4i` along the real axis is `3/5`, and the oracle says so -/
+example : (calcAmplitude (⟨⟨3, 1⟩, ⟨4, 0⟩⟩ : Cx (Dual ℝ))).d = 3 / 5 := by
+  have h5 : Real.sqrt (3 * 3 + 4 * 4) = 5 := by
+    rw [show (3 * 3 + 4 * 4 : ℝ) = 5 ^ 2 by norm_num]; exact Real.sqrt_sq (by norm_num)
+  simp only [calcAmplitude, Cx.abs, Cx.normSq, Dual.sqrt_d, Dual.add_d, Dual.add_v, Dual.mul_d, Dual.mul_v,
+    num_two, h5]
+  norm_num
+
+/-- the side conditions are satisfiable … -/
+example : DRel 0 (fun t => calcAmplitude (⟨3 + t * 1, 4 + t * 0⟩ : Cx ℝ))
+    (calcAmplitude (⟨⟨3, 1⟩, ⟨4, 0⟩⟩ : Cx (Dual ℝ))) :=
+  C05_amplitude_ad 3 4 1 0 (Or.inl (by norm_num))
+
+example : DRel 0 (fun t => calcPhase (⟨0 + t * 1, 1 + t * 0⟩ : Cx ℝ))
+    (calcPhase (⟨⟨0, 1⟩, ⟨1, 0⟩⟩ : Cx (Dual ℝ))) :=
+  C05_phase_ad 0 1 1 0 (Or.inr one_ne_zero)
+
+/-- … and necessary: at `u = 0` the amplitude `t ↦ |t|` is not differentiable (the documented point) -/
+example : ¬ DifferentiableAt ℝ (fun t => calcAmplitude (⟨0 + t * 1, 0 + t * 0⟩ : Cx ℝ)) 0 := by
+  have : (fun t : ℝ => calcAmplitude (⟨0 + t * 1, 0 + t * 0⟩ : Cx ℝ)) = fun t => |t| := by
+    funext t
+    simp only [calcAmplitude, Cx.abs, Cx.normSq, num_sqrt, zero_add, mul_one, mul_zero, add_zero]
+    exact Real.sqrt_mul_self_eq_abs t
+  rw [this]; exact not_differentiableAt_abs_zero
+
+/-- the Newton hypothesis holds for every iteration count at the root `τ = 1` of `τ² - 1` -/
+example (k : Nat) : DRel 1 (fun s => (refrStep 0 (-1))^[k] s)
+    ((refrStep (Dual.const 0) (Dual.const (-1)))^[k] (Dual.var 1)) := by
+  refine C05_newton_iterates_ad 0 (-1) 1 k fun j _ => ?_
+  have hfix : refrStep (0 : ℝ) (-1) 1 = 1 := by simp [refrStep, num_sq]
+  rw [Function.iterate_fixed hfix]; norm_num
+
+/-- a reflecting surface with `n·n + ε ≠ 0` -/
+example : DRel 0 (fun t => (reflectDir 0 ((⟨1, 0, -1⟩ : Vec3 ℝ) + Vec3.smul t ⟨0, 1, 0⟩) ⟨0, 0, 1⟩).x)
+    (reflectDir (Dual.const 0) (Dual.vec3 ⟨1, 0, -1⟩ ⟨0, 1, 0⟩) (Dual.constVec3 ⟨0, 0, 1⟩)).x :=
+  (C05_reflect_ad 0 ⟨1, 0, -1⟩ ⟨0, 1, 0⟩ ⟨0, 0, 1⟩ (by simp [Vec3.dot])).1
+
+/-- a non-parallel ray onto the triangle `(1,0,0), (0,0,0), (0,1,0)` (normal `(0,0,1)`) -/
+example : Vec3.dot (triangleNormalDir (⟨1, 0, 0⟩ : Vec3 ℝ) ⟨0, 0, 0⟩ ⟨0, 1, 0⟩) ⟨0, 0, 1⟩ ≠ 0 := by
+  simp [triangleNormalDir, triangleCross, Vec3.cross, Vec3.sdiv, Vec3.norm, Vec3.normSq, Vec3.dot,
+    DAux.vsub]
+
+/-- both pieces of the sRGB curve are covered -/
+example : DRel 0 (fun t => Gen.srgbToLinear (0.5 + t * 1)) (Gen.srgbToLinear (⟨0.5, 1⟩ : Dual ℝ)) :=
+  C05_srgb_to_linear_ad 0.5 1 (by norm_num)
+example : DRel 0 (fun t => Gen.srgbToLinear (0.01 + t * 1)) (Gen.srgbToLinear (⟨0.01, 1⟩ : Dual ℝ)) :=
+  C05_srgb_to_linear_ad 0.01 1 (by norm_num)
+
 end Odak
